@@ -369,11 +369,75 @@ def r06_6(ctx, counts: dict[str, int]) -> RuleResult:
     return res
 
 
+def r06_7(ctx, counts: dict[str, int]) -> RuleResult:
+    """NaN compares false with everything: a sign ladder needs its own NaN arm"""
+    res = RuleResult(
+        'R06.7', 'NAN-FALLS-THROUGH-SIGN-LADDER',
+        'In the evaluate functions of div, idiv and mod, an if/elif chain that classifies an '
+        'evaluated operand by comparisons with 0 (`x == 0`, `x > 0`, `x < 0`) and ends in a bare '
+        '`else` treats NaN as the remaining sign, because every comparison with NaN is false. '
+        'When the arms return IEEE special values (inf/nan constants) the chain must test NaN '
+        'explicitly (math.isnan on that operand in one of its tests, or a dominating test) — '
+        'otherwise xs:double("NaN") div 0e0 is -INF.')
+    n = 0
+    for sym in ('div', 'idiv', 'mod'):
+        f = _operator_func(ctx, sym)
+        for top in [x for x in walk_local(f.node) if isinstance(x, ast.If)]:
+            chain = []
+            cur: ast.AST = top
+            while isinstance(cur, ast.If):
+                chain.append(cur)
+                cur = cur.orelse[0] if len(cur.orelse) == 1 and isinstance(cur.orelse[0], ast.If) \
+                    else None           # type: ignore[assignment]
+            last = chain[-1]
+            if not last.orelse:
+                continue
+            subjects: dict[str, int] = {}
+            for c in chain:
+                for cmp_ in [y for y in ast.walk(c.test) if isinstance(y, ast.Compare)]:
+                    if len(cmp_.ops) == 1 and isinstance(cmp_.ops[0], (ast.Eq, ast.Gt, ast.Lt, ast.GtE, ast.LtE)) \
+                            and isinstance(cmp_.left, ast.Name) \
+                            and isinstance(cmp_.comparators[0], ast.Constant) \
+                            and cmp_.comparators[0].value == 0:
+                        subjects[cmp_.left.id] = subjects.get(cmp_.left.id, 0) + 1
+            ladder = [s_ for s_, k in subjects.items() if k >= 2]
+            if not ladder:
+                continue
+            special = any(isinstance(y, ast.Call) and dotted(y.func) == 'float' and y.args
+                          and isinstance(y.args[0], ast.Constant)
+                          and str(y.args[0].value).lower().strip('+-') in ('inf', 'nan')
+                          or isinstance(y, ast.Attribute) and dotted(y) in ('math.inf', 'math.nan')
+                          for st in last.orelse for y in ast.walk(st))
+            if not special:
+                continue
+            # only the outermost If of a chain
+            if any(top is c2.orelse[0] for c2 in walk_local(f.node)
+                   if isinstance(c2, ast.If) and len(c2.orelse) == 1):
+                continue
+            for subj in ladder:
+                n += 1
+                tests_nan = any(isinstance(y, ast.Call) and dotted(y.func) in ('math.isnan', 'isnan')
+                                and y.args and stmt_text(y.args[0]) == subj
+                                for c in chain for y in ast.walk(c.test))
+                res.instances.append(f'{f.key} [{sym}]: sign ladder on `{subj}` with a bare else '
+                                     f'returning IEEE specials; NaN tested={tests_nan}')
+                if tests_nan:
+                    res.ok()
+                else:
+                    res.fail(finding('R06.7', f, last, f'{sym}: NaN takes the else arm',
+                                     f'the ladder on `{subj}` (== 0, > 0, else) of the {sym} operator '
+                                     f'sends a NaN `{subj}` to its else arm: xs:double("NaN") '
+                                     f'{sym} 0e0 returns an infinity instead of NaN'))
+    counts['sign_ladders'] = n
+    return res
+
+
 def run(ctx) -> dict:
     counts: dict[str, int] = {}
     return {
         'results': [r06_1(ctx, counts), r06_2(ctx, counts), r06_3(ctx, counts), r06_4(ctx, counts),
-                    r06_5(ctx, counts), r06_6(ctx, counts)], 'counts': counts,
+                    r06_5(ctx, counts), r06_6(ctx, counts),
+                    r06_7(ctx, counts)], 'counts': counts,
         'explanation':
             'Decided: the rounding-mode clause of C06 and one IEEE clause (the sign of a zero '
             'divisor is never read through a comparison). Rounding: a who-may-call rule confines '
